@@ -1,6 +1,10 @@
 #!/bin/sh
-# setup-time sanity: the engine binary runs and both solvers answer
+# setup-time sanity: solvers answer, and the engine agrees with the repository's own tests
+# (conformance harnesses: six repo tests ported as nondeterminism-free harnesses, run in the engine and natively)
 cd "$(dirname "$0")/.." || exit 1
 test -x bin/flytsym || exit 1
 echo '(check-sat)' | z3 -in >/dev/null || exit 1
+echo '(check-sat)' | cvc5 --incremental --lang=smt2 >/dev/null || exit 1
+./check _conformance quick >/dev/null 2>&1 || { echo "conformance self-check failed"; ./check _conformance quick | tail -5; exit 1; }
+rm -f evidence/_conformance.json
 exit 0
